@@ -142,6 +142,8 @@ class Sched:
         self.outcome = None
         self.ff_jumps = 0
         self.point_kinds = collections.Counter()
+        self.quiescent_hook = None
+        self._hook_spin = 0
 
     # -- thread management
     def spawn(self, fn, name, obj=None) -> SimThread:
@@ -277,6 +279,16 @@ class Sched:
                         cands.append((t, "early"))
             if not ready:
                 # nothing is ready: time must pass (not a choice in prompt mode)
+                if self.quiescent_hook is not None and self.all_idle(live):
+                    r = self.quiescent_hook(self)
+                    self._hook_spin = self._hook_spin + 1 if r is True else 0
+                    if self._hook_spin > 1000:
+                        raise SimError("quiescent hook keeps claiming progress but nothing becomes ready")
+                    if r == "stop":
+                        self.outcome = "script-end"
+                        return "script-end"
+                    if r:
+                        continue
                 dls = [t.deadline for t in live if t.deadline is not None]
                 if not dls:
                     self.outcome = "deadlock"
@@ -292,11 +304,17 @@ class Sched:
             if how == "early":
                 self.now = max(self.now, t.deadline)
             self.steps += 1
+            self._hook_spin = 0
             t.steps += 1
             self.current = t
             self.last_tid = t.tid
             t.greenlet.switch()
             self.current = None
+
+    def all_idle(self, live):
+        """Quiescent: every thread is blocked and every poller among them has
+        completed a full iteration that changed nothing."""
+        return all(t.idle and t.idle_mark[0] == self.sig for t in live if t.deadline is not None and t.is_poll)
 
     def _advance_idle(self, live):
         """No thread is ready.  Advance the clock to the earliest deadline; if
@@ -308,7 +326,7 @@ class Sched:
         if self.fast_forward:
             pollers = [t for t in live if t.deadline is not None and t.is_poll]
             others = [t.deadline for t in live if t.deadline is not None and not t.is_poll]
-            if pollers and all(t.idle for t in pollers):
+            if pollers and all(t.idle and t.idle_mark[0] == self.sig for t in pollers):
                 tds = [d for d in self.timer_deadlines() if d > self.now]
                 horizon = self.t0 + self.max_time + 1.0
                 target = min(others + tds + [horizon])
